@@ -1,10 +1,16 @@
 #!/bin/bash
-# runs every claimed check of MANIFEST.json sequentially in the given tier; prints one status line per check
+# runs every claimed check of MANIFEST.json in the given tier; prints one status line per check.
+# PAR=<n> runs n checks at a time (default 1; each check already uses several worker processes).
 cd "$(dirname "$0")/.."
 TIER=${1:-quick}
-for id in $(python3 -c "import json; print(' '.join(c['property_id'] for c in json.load(open('MANIFEST.json'))['checks']))"); do
+PAR=${PAR:-1}
+one() {
+  id=$1; TIER=$2
   s=$(date +%s)
-  ./check $id --tier $TIER > /tmp/runall_$id.log 2>&1; rc=$?
+  ./check $id --tier $TIER > /tmp/runall_${TIER}_$id.log 2>&1; rc=$?
   e=$(date +%s)
-  echo "$id tier=$TIER exit=$rc wall=$((e-s))s known=$(grep -c '^KNOWN-FINDING' /tmp/runall_$id.log) viol=$(grep -c '^VIOLATION' /tmp/runall_$id.log) inconcl=$(grep -c '^INCONCLUSIVE' /tmp/runall_$id.log)"
-done
+  echo "$id tier=$TIER exit=$rc wall=$((e-s))s known=$(grep -c '^KNOWN-FINDING' /tmp/runall_${TIER}_$id.log) viol=$(grep -c '^VIOLATION' /tmp/runall_${TIER}_$id.log) inconcl=$(grep -c '^INCONCLUSIVE' /tmp/runall_${TIER}_$id.log)"
+}
+export -f one
+python3 -c "import json; print('\n'.join(c['property_id'] for c in json.load(open('MANIFEST.json'))['checks']))" \
+  | xargs -P "$PAR" -I{} bash -c "one {} $TIER"
